@@ -10,7 +10,8 @@ class Deadlock(Exception):
 
 
 class Scheduler(object):
-    def __init__(self, preempt_at=(), first=0):
+    def __init__(self, preempt_at=(), first=0, trace_lines_of=()):
+        self.trace_lines_of = set(trace_lines_of)       # function names whose every source line is a yield point too (unprotected sections)
         self.preempt_at = set(preempt_at)
         self.first = first
         self.threads = []          # [dict(name, thread, go, state, result)]
@@ -26,6 +27,18 @@ class Scheduler(object):
 
         def body():
             rec['go'].wait()
+            if self.trace_lines_of:
+                import sys
+
+                def tracer(frame, event, arg):
+                    if frame.f_code.co_name in self.trace_lines_of:
+                        def local(frame, event, arg):
+                            if event == 'line' and self.current is rec:
+                                self.yield_point('line:%s:%d' % (frame.f_code.co_name, frame.f_lineno))
+                            return local
+                        return local
+                    return None
+                sys.settrace(tracer)
             try:
                 rec['result'] = ('ok', fn())
             except Deadlock:
@@ -110,6 +123,8 @@ class SchedLock(object):
 
     def __init__(self):
         self.owner = None
+        if self._active():
+            SchedLock.sched.yield_point('create-lock')      # a lock created lazily inside an operation: check-then-create races show here
 
     @staticmethod
     def _active():
